@@ -73,6 +73,12 @@ def run_case(ctx, rng, idx):
         ctx.event("exhaustive-3-node-directed-hypergraph")
         evaluate(ctx, rng, idx, h)
         return
+    if idx == 1 or (ctx.tier == "thorough" and idx % 700 == 9):
+        from ..gen import big_directed
+
+        ctx.event("big-directed-hypergraph")
+        evaluate(ctx, rng, idx, big_directed(rng))
+        return
     h = gen(rng)
     evaluate(ctx, rng, idx, h)
     from ..mutate import same_count_edit
@@ -94,7 +100,7 @@ def evaluate(ctx, rng, idx, h):
     mx = max(sizes)
 
     def wit(extra=None):
-        return {"object": S.describe(), "extra": repr(extra)[:700]}
+        return {"object": S.describe() if len(S.edges) <= 30 else {"nodes": len(S.nodes), "edges": len(S.edges)}, "extra": repr(extra)[:700]}
 
     # ---- degrees ---------------------------------------------------------------------------
     filters = [None] + [("size", k) for k in range(1, mx + 2)] + [("order", k - 1) for k in range(1, mx + 2)]
